@@ -40,9 +40,14 @@ def bounds(tier):
 AWKWARD = ["ds:Z:*2+a-t", "zz:Z:a b:c", "xi:i:-5", "fl:f:-0.5"]
 
 
-def build(nchrom):
+def build(nchrom, retagged=False):
     g0, chains = sc.multi_chrom_graph(nchrom)
-    g = sc.tag_by_model(g0, chains, with_untagged=True)
+    if retagged:
+        # same node ids, different BO/NO (chromosomes numbered in reverse order, from 50): what an earlier sort call
+        # in the same process may have seen
+        g = sc.tag_by_model(g0, chains[::-1], with_untagged=True, bo_start=50)
+    else:
+        g = sc.tag_by_model(g0, chains, with_untagged=True)
     return g, chains
 
 
@@ -72,7 +77,10 @@ def plan(tier, seed):
     return specs
 
 
-def judge(res, g, recs, in_variant, bgzip, scratch, tagname="x"):
+HIST = []  # earlier sort calls of this process: a failure may depend on them
+
+
+def judge(res, g, recs, in_variant, bgzip, scratch, tagname="x", record_history=True):
     gfa_path = os.path.join(scratch, "g.gfa")
     fw.write_text(gfa_path, g.text())
     text = "".join(r.line() + "\n" for r in recs)
@@ -82,9 +90,12 @@ def judge(res, g, recs, in_variant, bgzip, scratch, tagname="x"):
     out = sc.run_sort(scratch, gfa_path, gaf, outgaf=outp, outind=os.path.join(scratch, f"{tagname}.gsi"), bgzip=bgzip)
     res.count("sort_runs")
     case = {"gfa": g.text(), "records": [r.line() for r in recs], "in_variant": list(in_variant), "bgzip": bgzip}
-    if len(recs) > 80:
-        case["records"] = case["records"][:80]
-        case["truncated_from"] = len(recs)
+    if record_history:
+        case["preceded_by"] = [h for h in HIST[-1:] if h["gfa"] != case["gfa"]]
+        if not HIST or HIST[-1]["gfa"] != case["gfa"]:
+            HIST.append({"gfa": case["gfa"], "records": case["records"][:30], "in_variant": ["plain"], "bgzip": False})
+            if len(HIST) > 3:
+                del HIST[0]
     lines = []
     if os.path.exists(outp):
         try:
@@ -126,7 +137,6 @@ def judge(res, g, recs, in_variant, bgzip, scratch, tagname="x"):
             kind = sorted({t[:2] for t in wrong})
             c2 = dict(case)
             c2["records"] = [r.line()]
-            c2.pop("truncated_from", None)
             res.fail(f"C09/tags:{'+'.join(kind)}", f"{r.path} [{r.ps},{r.pe}) of {r.plen}: appended {tags}, expected {sorted(exp)}", c2)
     if got != want:
         missing = [k.split("\t")[0] for k in want if got.get(k, 0) < want[k]]
@@ -142,6 +152,8 @@ def run_shard(spec, tier, scratch):
     res.count("records_in_alphabet", len(recs))
     part = spec["part"]
     if part == "full":
+        g_other, _ = build(spec["nchrom"], retagged=True)
+        judge(res, g_other, recs, ("plain",), False, scratch)  # also leaves a different graph in this process's history
         for inv in (("plain",), ("pysam",), ("bgzf", [len(recs[0].line()) + 1, len(recs[0].line()) + 20], [], True)):
             for bgzip in (False, True):
                 judge(res, g, recs, inv, bgzip, scratch)
@@ -177,5 +189,7 @@ def replay(case, scratch):
     recs = [rgfa.Rec.parse(l) for l in case["records"]]
     v = case["in_variant"]
     variant = tuple(v) if v[0] != "bgzf" else ("bgzf", v[1], v[2], v[3])
-    judge(res, g, recs, variant, case["bgzip"], scratch)
+    for prev in case.get("preceded_by") or []:
+        judge(fw.ShardResult(), rgfa.Graph.parse(prev["gfa"]), [rgfa.Rec.parse(l) for l in prev["records"]], ("plain",), False, scratch, record_history=False)
+    judge(res, g, recs, variant, case["bgzip"], scratch, record_history=False)
     return res.failures
